@@ -173,6 +173,8 @@ type vpLedger struct {
 	GenesisTxs []*common.VersionedTransaction
 	Snapshots  []*common.SnapshotWithTopologicalOrder
 	Submits    []crypto.Hash
+	Pledging   *vpLPledge
+	Accepted   []*vpLPledge
 }
 
 func vpLAddr(seed []byte) common.Address {
@@ -942,7 +944,7 @@ func (l *vpLedger) StepNodeRemove(t *rapid.T, which int) *vpLTx {
 	gtx := l.GenesisTxs[which]
 	h := gtx.PayloadHash()
 	u := l.UTXOs[fmt.Sprintf("%s:%d", h, 0)]
-	if u == nil || u.Lock.HasValue() || u.SpentBy.HasValue() {
+	if u == nil || u.Lock.HasValue() || u.SpentBy.HasValue() || l.Pledging != nil {
 		return nil
 	}
 	owners, th := l.vpLDrawOwners(t, 3, "remove_out")
@@ -990,4 +992,79 @@ func (l *vpLedger) Grow(t *rapid.T, n int) {
 			}
 		}
 	}
+}
+
+// ---------------------------------------------------------------------------
+// node lifecycle steps (store-level legality only; election/time windows are
+// kernel rules judged elsewhere)
+
+type vpLPledge struct {
+	Tx     crypto.Hash
+	Signer common.Address
+	Payee  common.Address
+	Amount common.Integer
+}
+
+// StepPledge deposits the pledge amount to a single-key output, finalizes it
+// and pledges a new node with it. Returns nil when somebody is pledging or the
+// XIN capacity leaves no room.
+func (l *vpLedger) StepPledge(t *rapid.T, finalize bool) *vpLPledge {
+	if l.Pledging != nil {
+		return nil
+	}
+	amount := common.KernelNodePledgeAmount
+	room := new(big.Int).Sub(vpLBig(common.GetAssetCapacity(common.XINAssetId)), l.total(common.XINAssetId))
+	room.Sub(room, l.pendingDeposits(common.XINAssetId))
+	if room.Cmp(new(big.Int).Add(vpLBig(amount), big.NewInt(1))) <= 0 {
+		return nil
+	}
+	l.Seq++
+	owner := rapid.IntRange(0, len(l.Accts)-1).Draw(t, "pledge_owner")
+	dep := l.BuildDeposit(&l.Assets[0], amount, vpLOut{Owners: []int{owner}, Threshold: 1}, fmt.Sprintf("0xpledge%d", l.Seq), 0, nil)
+	if err := l.Admit(dep, l.Tick(1000), "deposit"); err != nil {
+		t.Fatalf("pledge funding deposit rejected: %v", err)
+	}
+	l.FinalizeOne(t, []crypto.Hash{dep.PayloadHash()})
+	u := l.UTXOs[fmt.Sprintf("%s:%d", dep.PayloadHash(), 0)]
+	p := &vpLPledge{Signer: vpLNodeAddr(vpLSeed("pledge-signer", l.Seq)), Payee: vpLNodeAddr(vpLSeed("pledge-payee", l.Seq)), Amount: amount}
+	extra := append(append([]byte{}, p.Signer.PublicSpendKey[:]...), p.Payee.PublicSpendKey[:]...)
+	tx := l.BuildSpend(common.XINAssetId, []*vpLUTXO{u}, []vpLOut{{Type: common.OutputTypeNodePledge, Amount: amount}}, nil, extra)
+	ver := l.SignMaps(tx, []*vpLUTXO{u}, [][]int{{0}})
+	if err := l.Admit(ver, l.Tick(1000), "pledge"); err != nil {
+		t.Fatalf("model-valid pledge rejected: %v", err)
+	}
+	p.Tx = ver.PayloadHash()
+	l.Pledging = p
+	if finalize {
+		l.FinalizeOne(t, []crypto.Hash{p.Tx})
+	}
+	return p
+}
+
+// StepAccept accepts the finalized pledging node.
+func (l *vpLedger) StepAccept(t *rapid.T, finalize bool) *vpLTx {
+	p := l.Pledging
+	if p == nil || !l.Txs[p.Tx].Finalized {
+		return nil
+	}
+	u := l.UTXOs[fmt.Sprintf("%s:%d", p.Tx, 0)]
+	if u == nil || u.Lock.HasValue() {
+		return nil
+	}
+	extra := append(append([]byte{}, p.Signer.PublicSpendKey[:]...), p.Payee.PublicSpendKey[:]...)
+	tx := l.BuildSpend(common.XINAssetId, []*vpLUTXO{u}, []vpLOut{{Type: common.OutputTypeNodeAccept, Amount: p.Amount}}, nil, extra)
+	signed := &common.SignedTransaction{Transaction: *tx}
+	sig := p.Signer.PrivateSpendKey.Sign(tx.AsVersioned().PayloadHash())
+	signed.SignaturesMap = []map[uint16]*crypto.Signature{{0: &sig}}
+	ver := signed.AsVersioned()
+	if err := l.Admit(ver, l.Tick(1000), "accept"); err != nil {
+		t.Fatalf("model-valid accept rejected: %v", err)
+	}
+	mt := l.Txs[ver.PayloadHash()]
+	if finalize {
+		l.FinalizeOne(t, []crypto.Hash{mt.Hash})
+		l.Pledging = nil
+		l.Accepted = append(l.Accepted, p)
+	}
+	return mt
 }
